@@ -195,8 +195,19 @@ struct C06Script {
 
 /// Marker flag of the requests that fill a connection's stream-id space.
 const F_FILL: u64 = 1;
+/// Marker flag: a two-row result read through the paging iterator with page size 1; the
+/// first page is simply served, the request that is scripted and judged is the one for
+/// the SECOND page (it starts at the first page's coordinator and has a plan of its own).
+const F_PAGE2: u64 = 2;
 
 impl Script for C06Script {
+    fn rows_for(&mut self, _w: &mut World, rq: &ReqInfo, stmt: &crate::cluster::StmtDef) -> Vec<Vec<crate::wire::Cell>> {
+        let rows = crate::cluster::default_rows(stmt, rq.marker);
+        if rq.marker.map(|m| m & F_PAGE2 != 0).unwrap_or(false) && !self.exhaust_mode {
+            return vec![rows[0].clone(), rows[0].clone()];
+        }
+        rows
+    }
     fn on_user_request(&mut self, w: &mut World, rq: &ReqInfo, req: &Request) -> Reply {
         let (cl, is_prepare) = match req {
             Request::Query { params, .. } => (params.consistency, false),
@@ -211,6 +222,15 @@ impl Script for C06Script {
         let Some(m) = rq.marker else {
             return Reply::Default;
         };
+        if m & F_PAGE2 != 0 && !self.exhaust_mode && !self.forgetful {
+            let has_state = match req {
+                Request::Query { params, .. } | Request::Execute { params, .. } => params.paging_state.is_some(),
+                _ => false,
+            };
+            if !has_state {
+                return Reply::Default;
+            }
+        }
         if self.forgetful {
             if let Request::Execute { id, .. } = req {
                 let k = self
@@ -505,13 +525,14 @@ async fn main(plan: Plan) -> Outcome {
 
     let mut specs = Vec::new();
     for i in 0..plan.requests {
+        let kind = if plan.forgetful { [2u64, 3, 6][tape::choose("c06:kind_prepared", 3) as usize] } else { tape::choose("c06:kind", 12) };
         specs.push(ReqSpec {
-            marker: (i as u64 + 1) * 16,
+            marker: (i as u64 + 1) * 16 + if kind >= 10 { F_PAGE2 } else { 0 },
             idempotent: tape::chance("c06:idempotent", 1, 2),
             policy: [Policy::Default, Policy::Downgrading, Policy::Fallthrough]
                 [tape::weighted("c06:policy", &[3, 3, 1])],
             consistency: CONSISTENCIES[tape::weighted("c06:cl", &[3, 2, 1, 1, 1, 1, 1, 1])],
-            kind: if plan.forgetful { [2u64, 3, 6][tape::choose("c06:kind_prepared", 3) as usize] } else { tape::choose("c06:kind", 10) },
+            kind,
         });
     }
     let mut handles = Vec::new();
@@ -552,6 +573,42 @@ async fn main(plan: Plan) -> Outcome {
                         .await
                         .map(|_| ())
                         .map_err(|e| client::short_err(&e))
+                }
+                10 | 11 => {
+                    // The paging iterator over two pages: what is scripted and judged is the
+                    // request for the second page.
+                    use futures::StreamExt;
+                    let pager = if s.kind == 10 {
+                        let mut st = Statement::new(client::q_marker(m));
+                        st.set_is_idempotent(s.idempotent);
+                        st.set_consistency(s.consistency);
+                        st.set_retry_policy(Some(rec));
+                        st.set_page_size(1);
+                        session.query_iter(st, ()).await
+                    } else {
+                        let mut p = p_select.clone();
+                        p.set_is_idempotent(s.idempotent);
+                        p.set_consistency(s.consistency);
+                        p.set_retry_policy(Some(rec));
+                        p.set_page_size(1);
+                        session.execute_iter(p, (m as i64 % 7, m as i64)).await
+                    };
+                    match pager {
+                        Ok(pager) => match pager.rows_stream::<(i64,)>() {
+                            Ok(mut rs) => {
+                                let mut r = Ok(());
+                                while let Some(item) = rs.next().await {
+                                    if let Err(e) = item {
+                                        r = Err(format!("{e}").chars().take(120).collect());
+                                        break;
+                                    }
+                                }
+                                r
+                            }
+                            Err(e) => Err(format!("type check: {e}")),
+                        },
+                        Err(e) => Err(format!("{e}").chars().take(120).collect()),
+                    }
                 }
                 8 | 9 => {
                     // Manual paging: one page fetched with query_single_page /
